@@ -87,8 +87,17 @@ $(P)/%: $(P)/%.o $(P)/libzck.a
 $(T)/%.o: props/%.cpp $(HDRS) $(B)/include/zck.h
 	@mkdir -p $(dir $@)
 	$(CXX) $(TCXXFLAGS) -c $< -o $@
-$(T)/%: $(T)/%.o $(T)/libzck.a
-	$(CXX) -fsanitize=thread $< $(T)/libzck.a $(LDLIBS) -lpthread -o $@
+# hidden-static-state libc functions are wrapped so that TSan sees concurrent calls (lib/nonreentrant.c)
+NONREENT := strtok localtime gmtime asctime ctime strsignal setenv unsetenv putenv setlocale drand48 lrand48 mrand48 srand48 tmpnam l64a ecvt fcvt mblen mbtowc wctomb
+empty :=
+space := $(empty) $(empty)
+comma := ,
+NRWRAP := -Wl,$(subst $(space),$(comma),$(addprefix --wrap=,$(NONREENT)))
+$(T)/nonreentrant.o: lib/nonreentrant.c
+	@mkdir -p $(dir $@)
+	$(CC) -O1 -g -fsanitize=thread -c $< -o $@
+$(T)/%: $(T)/%.o $(T)/libzck.a $(T)/nonreentrant.o
+	$(CXX) -fsanitize=thread $< $(T)/libzck.a $(T)/nonreentrant.o $(LDLIBS) -lpthread $(NRWRAP) -o $@
 
 # ---------------------------------------------------------------- command-line tools (ASan)
 TOOLSRC := $(REPO)/src
